@@ -170,14 +170,14 @@ Judge(p) ==
            DirectivesPreserved == ~modified \/ DirList(out) = DirList(p)
            StatusMatchesContent == modified <=> (Len(marks) > 0)
            CountEqualsHookSites == pred.count = (IF Cfg.verbosity = "OFF" THEN 0 ELSE Cardinality(pairs))
-           effOut == EffectsOf(out, inj, TRUE, {}, FALSE)
+           effOut == EffectsOf(out, inj, TRUE, {}, {})
            bare == {sites[i].id : i \in {j \in idx : sites[j].k = "bare" /\ sites[j].id \in hooked}}
            EffectOrderPreserved ==
              \/ ~modified
-             \/ FirstEffectDiff(EffectsOf(p, {}, FALSE, {}, FALSE), effOut, 1) = ""
+             \/ FirstEffectDiff(EffectsOf(p, {}, FALSE, {}, {}), effOut, 1) = ""
              \* the named deviations of the design: D6, D7b, D21, D23
              \/ m.devs # {} \/ (\E i \in 1..Len(marks) : marks[i].hw \in DevWhys) \/ HasOrigin(e, D21Mark)
-             \/ (bare # {} /\ FirstEffectDiff(EffectsOf(p, {}, FALSE, bare, FALSE), effOut, 1) = "")
+             \/ (bare # {} /\ FirstEffectDiff(EffectsOf(p, {}, FALSE, bare, {}), effOut, 1) = "")
        IN /\ Erasable /\ HookArgsFaithful /\ AllSitesHooked /\ OnlyEnabledTouched
           /\ Hygienic /\ DirectivesPreserved /\ StatusMatchesContent /\ CountEqualsHookSites /\ EffectOrderPreserved
 
